@@ -48,7 +48,10 @@ impl NodeStamp {
         self.0 = if self.0 < i16::MAX {
             -self.0 - 1
         } else {
-            -self.0
+            // The generation counter is exhausted: retire the slot for good
+            // (`reuseable()` is false for `i16::MIN`), so that the last id
+            // issued for it is never issued again.
+            i16::MIN
         };
     }
 
